@@ -255,8 +255,19 @@ class Bounds:
         iv, (penv, env, fld) = self.at(func, node, expr)
         return iv, penv, env, fld
 
-    def eval_full(self, func, node, expr, accept):
+    def eval_full(self, func, node, expr, accept, _depth=0):
         """try guards first, then caller-derived parameter bounds; accept(iv)->bool"""
+        # a selection `c ? a : b`: each arm is evaluated under its own guard (c / !c) and must be acceptable by itself
+        e0 = unwrap_casts(expr)
+        if isinstance(e0, dict) and e0.get('k') == 'cond' and const_value(e0.get('c')) is None and _depth < 3 \
+                and isinstance(e0.get('a'), dict) and isinstance(e0.get('b'), dict):
+            ra, wa = self.eval_full(func, e0['a'], e0['a'], accept, _depth + 1)
+            rb, wb = self.eval_full(func, e0['b'], e0['b'], accept, _depth + 1)
+            if ra is not None and rb is not None:
+                j = (min(ra[0], rb[0]), max(ra[1], rb[1]))
+                if accept(ra) and accept(rb):
+                    return j, wa if wa == wb else 'local'
+                return j, 'unproved'
         penv, env, fld = self.narrowing(func, node)
         iv = self._eval(func, expr, penv, env, fld)
         if accept(iv):
